@@ -114,7 +114,11 @@ func (r tlsaRec) String() string { return fmt.Sprintf("%d %d %d <%s>", r.Usage, 
 type mxFacts struct {
 	Name     string `json:"name"`
 	Pref     uint16 `json:"pref"`
-	Down     bool   `json:"down,omitempty"`
+	Down     bool   `json:"down,omitempty"` // connection refused
+	// Greet: "" (normal 220) | "drop" (accepts, then closes before the greeting)
+	// | "421" | "554" (refusing greeting). The MX is unusable, but only after the
+	// MX-level policies were evaluated for it.
+	Greet string `json:"greeting,omitempty"`
 	StartTLS string `json:"starttls"` // ok | none | handshake | reply454
 	Cert     string `json:"cert"`     // valid | selfsigned | wrongname | expired
 	ReqTLS   bool   `json:"advertises_requiretls"`
@@ -188,6 +192,7 @@ var mxLevelNames = []string{"none", "mtasts", "dnssec"}
 func genMX(p *prng.R, dom, i int, pref uint16) mxFacts {
 	m := mxFacts{idx: dom*2 + i, Name: mxName(dom, i), Pref: pref}
 	m.Down = p.Chance(5, 100)
+	m.Greet = []string{"", "drop", "421", "554"}[p.Weighted([]int{91, 3, 3, 3})]
 	m.StartTLS = []string{"ok", "none", "handshake", "reply454"}[p.Weighted([]int{65, 20, 8, 7})]
 	m.Cert = certKinds[p.Weighted([]int{50, 20, 15, 15})]
 	m.ReqTLS = p.Chance(60, 100)
@@ -229,8 +234,35 @@ func genDomain(p *prng.R, dom int) domainFacts {
 	for i := 0; i < nmx; i++ {
 		d.MXs = append(d.MXs, genMX(p, dom, i, prefs[i]))
 	}
+	// with two candidates the interesting histories are those where the
+	// preferred one is given up (at some stage) and the other one is tried
+	if nmx == 2 && p.Chance(35, 100) {
+		first := &d.MXs[0]
+		if d.MXs[1].Pref < first.Pref {
+			first = &d.MXs[1]
+		}
+		makeUnusable(p, first)
+	}
 	return d
 }
+
+// makeUnusable gives an MX one of the ways an attempt can end after the
+// MX-level policy evaluation: at connect, at the greeting, at STARTTLS.
+func makeUnusable(p *prng.R, m *mxFacts) string {
+	m.Down, m.Greet = false, ""
+	k := []string{"refused", "drop", "421", "554", "reply454"}[p.Intn(5)]
+	switch k {
+	case "refused":
+		m.Down = true
+	case "reply454":
+		m.StartTLS = "reply454"
+	default:
+		m.Greet = k
+	}
+	return k
+}
+
+func (m *mxFacts) unusable() bool { return m.Down || m.Greet != "" || m.StartTLS == "reply454" }
 
 func genConfig(p *prng.R, sc *scenario) {
 	sc.MTASTS = p.Chance(50, 100)
@@ -575,7 +607,18 @@ func buildWorld(sc *scenario) (*world, error) {
 				}
 			}
 			dot := m.DotCode
+			greet := m.Greet
 			cfg.Script = func(ev smtpd.Event) *smtpd.Action {
+				if ev.Stage == smtpd.StageConnect && greet != "" {
+					switch greet {
+					case "drop":
+						return &smtpd.Action{DropBefore: true}
+					case "421":
+						return &smtpd.Action{Code: 421, Enh: "4.3.2", Text: []string{"not now"}, DropAfter: true}
+					default:
+						return &smtpd.Action{Code: 554, Enh: "5.3.2", Text: []string{"no SMTP service here"}}
+					}
+				}
 				if ev.Stage == smtpd.StageDot && dot != 250 {
 					enh := "4.3.0"
 					if dot >= 500 {
@@ -943,7 +986,7 @@ func (sc *scenario) discoveryOnlyObstacle(f msgFlags, d *domainFacts) (bool, str
 	kind := ""
 	for i := range d.MXs {
 		m := &d.MXs[i]
-		if m.Down || m.DotCode != 250 || (m.StartTLS != "ok" && m.StartTLS != "none") {
+		if m.Down || m.Greet != "" || m.DotCode != 250 || (m.StartTLS != "ok" && m.StartTLS != "none") {
 			return false, ""
 		}
 		if m.tlsaDiscovery() != "fail" {
@@ -977,7 +1020,7 @@ func shapeOf(sc *scenario) string {
 			if m.TLSA == "records" {
 				au, da = m.daneVerdict()
 			}
-			fmt.Fprintf(&b, " | %s %s down=%v rt=%v disc=%s usable=%v match=%v sts=%v dot=%d", m.StartTLS, m.Cert, m.Down, m.ReqTLS, m.tlsaDiscovery(), au, da, m.STSMatch, m.DotCode)
+			fmt.Fprintf(&b, " | %s %s down=%v/%s rt=%v disc=%s usable=%v match=%v sts=%v dot=%d", m.StartTLS, m.Cert, m.Down, m.Greet, m.ReqTLS, m.tlsaDiscovery(), au, da, m.STSMatch, m.DotCode)
 		}
 	}
 	for _, f := range sc.Msgs {
@@ -989,7 +1032,7 @@ func shapeOf(sc *scenario) string {
 const (
 	groupRandom   = 0
 	groupDirected = 1_000_000
-	nDirected     = 9
+	nDirected     = 10
 )
 
 // directed scenarios: the histories the statement singles out (reuse of a
@@ -1005,7 +1048,7 @@ func directedScenario(k int, p *prng.R) *scenario {
 	d.MXErr = false
 	d.MXs = d.MXs[:1]
 	m := &d.MXs[0]
-	m.Down, m.AErr, m.DotCode, m.ReqTLS = false, false, 250, true
+	m.Down, m.Greet, m.AErr, m.DotCode, m.ReqTLS = false, "", false, 250, true
 	switch k % nDirected {
 	case 0: // plaintext-only MX, min TLS encrypted; override message first
 		sc.MTASTS, sc.DANE, sc.DNSSEC, sc.Local, sc.MinTLS, sc.MinMX = false, false, false, true, 1+p.Intn(2), 0
@@ -1082,7 +1125,7 @@ func directedScenario(k int, p *prng.R) *scenario {
 		d2.MXErr = false
 		d2.MXs = d2.MXs[:1]
 		m2 := &d2.MXs[0]
-		m2.Down, m2.AErr, m2.DotCode = false, false, 250
+		m2.Down, m2.Greet, m2.AErr, m2.DotCode = false, "", false, 250
 		d2.STS = []string{"none", "testing"}[p.Intn(2)]
 		switch p.Intn(3) {
 		case 0:
@@ -1108,7 +1151,7 @@ func directedScenario(k int, p *prng.R) *scenario {
 		d2.MXErr, d2.STS = false, "enforce"
 		d2.MXs = d2.MXs[:1]
 		m2 := &d2.MXs[0]
-		m2.Down, m2.AErr, m2.DotCode, m2.StartTLS = false, false, 250, "ok"
+		m2.Down, m2.Greet, m2.AErr, m2.DotCode, m2.StartTLS = false, "", false, 250, "ok"
 		if p.Bool() {
 			m2.STSMatch, m2.Cert = false, certKinds[p.Intn(4)]
 		} else {
@@ -1116,6 +1159,79 @@ func directedScenario(k int, p *prng.R) *scenario {
 		}
 		sc.Domains = append(sc.Domains, d2)
 		sc.Msgs = []msgFlags{{Rcpts: []int{0, 1}}}
+	case 9: // fallback after a failed preferred MX: the preferred candidate is as good as can
+		// be on every dimension (listed in the MTA-STS policy, valid certificate, matching
+		// or no TLSA, REQUIRETLS offered) but its attempt ends AFTER the policies looked at
+		// it (refused, greeting failure, STARTTLS refused, or a policy rejects the
+		// connection); the fallback candidate is worse on one or two dimensions. Nothing
+		// established for the first candidate (MX level, TLS level, DANE result,
+		// verification mode) may carry over to the second.
+		sc.MTASTS = p.Chance(75, 100)
+		sc.DANE = p.Chance(50, 100)
+		sc.DNSSEC = p.Chance(30, 100)
+		sc.Local = p.Chance(75, 100)
+		sc.MinTLS = p.Weighted([]int{30, 30, 40})
+		sc.MinMX = p.Weighted([]int{40, 50, 10})
+		d.STS = []string{"testing", "enforce", "none"}[p.Weighted([]int{60, 30, 10})]
+		d.MXAD = p.Chance(25, 100)
+		first := genMX(p, 0, 0, 10)
+		first.Down, first.Greet, first.AErr, first.DotCode = false, "", false, 250
+		first.StartTLS, first.Cert, first.ReqTLS, first.STSMatch = "ok", "valid", true, true
+		first.AAD, first.TLSAAD = true, true
+		switch p.Intn(3) {
+		case 0:
+			first.TLSA, first.TLSARecs = "absent", nil
+		case 1:
+			first.TLSA, first.TLSARecs = "records", []tlsaRec{{3, 1, 1, "leaf"}}
+		case 2:
+			first.TLSA, first.TLSARecs = "records", []tlsaRec{{2, 0, 1, "inter"}}
+		}
+		switch p.Intn(8) {
+		case 0, 1, 2, 3, 4:
+			makeUnusable(p, &first)
+		case 5: // untrusted certificate: retried without verification, then rejected by policy
+			first.Cert = certKinds[1+p.Intn(3)]
+			sc.Local, sc.MinTLS = true, 2
+			if first.TLSA == "records" {
+				first.TLSA, first.TLSARecs = "absent", nil
+			}
+		case 6: // DANE rejects the otherwise perfect candidate
+			sc.DANE = true
+			first.TLSA, first.TLSARecs = "records", []tlsaRec{{3, 1, 1, "stranger"}}
+		case 7: // TLS handshake fails, plaintext retry, rejected by policy
+			first.StartTLS = "handshake"
+			sc.Local = true
+			if sc.MinTLS == 0 {
+				sc.MinTLS = 1
+			}
+		}
+		second := genMX(p, 0, 1, 20)
+		second.Down, second.Greet, second.AErr, second.DotCode = false, "", false, 250
+		second.StartTLS, second.Cert, second.ReqTLS, second.STSMatch = "ok", "valid", true, true
+		second.AAD, second.TLSAAD, second.TLSA, second.TLSARecs = true, true, "absent", nil
+		for n := 1 + p.Intn(2); n > 0; n-- {
+			switch p.Intn(6) {
+			case 0, 1:
+				second.STSMatch = false
+			case 2:
+				second.Cert = certKinds[1+p.Intn(3)]
+			case 3:
+				second.StartTLS = "none"
+			case 4:
+				if p.Bool() {
+					second.TLSA, second.TLSARecs = "servfail", nil
+				} else {
+					second.TLSA, second.TLSARecs = "records", []tlsaRec{{3, 1, 1, "stranger"}}
+				}
+			case 5:
+				second.ReqTLS = false
+			}
+		}
+		d.MXs = []mxFacts{first, second}
+		sc.Msgs = nil
+		for n := 1 + p.Intn(2); n > 0; n-- {
+			sc.Msgs = append(sc.Msgs, msgFlags{Req: p.Chance(40, 100), Ovr: p.Chance(10, 100)})
+		}
 	}
 	return sc
 }
@@ -1292,7 +1408,7 @@ func TestVerif(t *testing.T) {
 			return genScenario(prng.New(r.Seed(), uint64(i), "c05"))
 		})
 	}
-	nd := r.N(360, 7200)
+	nd := r.N(600, 12000)
 	for k := 0; k < nd; k++ {
 		run(groupDirected+k, fmt.Sprintf("directed-%d-%d", k%nDirected, k), func() *scenario {
 			return directedScenario(k, prng.New(r.Seed(), uint64(k), "c05-directed"))
